@@ -18,10 +18,12 @@ Record libm := {
 }.
 
 (* ---- uom 0.35: a quantity is an f64 in SI base units; meter, radian, ratio have coefficient 1, constant 0 ---- *)
-(* Quantity::new::<N>(v) = to_base(v) = (v + n_cons) * (n_coef / f)  with n_cons = 0.0, n_coef = f = 1.0
-   (src/system.rs `to_base`, branch n_coef >= f).  Note: -0.0 becomes +0.0. *)
-Definition q_new (v : float) : float := (v + 0) * (1 / 1).
-(* Quantity::get::<N>() = from_base(v) = v / (n_coef / f) - n_cons   (branch not (n_coef < f)) *)
+(* Quantity::new::<N>(v) = to_base(v) = (v + n_cons) * (n_coef / f)  with n_coef = f = 1.0 (src/system.rs `to_base`,
+   branch n_coef >= f) and n_cons = N::constant(ConstantOp::Add) = -0.0 (src/unit.rs:289-293: the additive constant
+   is NEGATIVE zero so that the sign of a zero argument survives: -0.0 + -0.0 = -0.0, +0.0 + -0.0 = +0.0). *)
+Definition q_new (v : float) : float := (v + neg_zero) * (1 / 1).
+(* Quantity::get::<N>() = from_base(v) = v / (n_coef / f) - n_cons   (branch not (n_coef < f)),
+   n_cons = N::constant(ConstantOp::Sub) = +0.0 *)
 Definition q_get (v : float) : float := v / (1 / 1) - 0.
 (* change_base (autoconvert: applied to the right operand of + - hypot partial_cmp):
    v * (1.0.powi(k) / 1.0.powi(k)) : the identity on every non-NaN value, NaN stays NaN; left out. *)
